@@ -6,6 +6,7 @@ toolchain go1.23.5
 
 require (
 	github.com/google/uuid v1.6.0
+	github.com/mr-tron/base58 v1.2.0
 	github.com/nspcc-dev/neo-go v0.107.0
 	github.com/nspcc-dev/neo-go/pkg/interop v0.0.0-20240729160116-d8e3e57f88f2
 	github.com/nspcc-dev/neofs-contract v0.0.0
@@ -32,7 +33,6 @@ require (
 	github.com/hashicorp/golang-lru/v2 v2.0.7 // indirect
 	github.com/holiman/uint256 v1.3.1 // indirect
 	github.com/mmcloughlin/addchain v0.4.0 // indirect
-	github.com/mr-tron/base58 v1.2.0 // indirect
 	github.com/munnerz/goautoneg v0.0.0-20191010083416-a7dc8b61c822 // indirect
 	github.com/nspcc-dev/go-ordered-json v0.0.0-20240830112754-291b000d1f3b // indirect
 	github.com/nspcc-dev/hrw/v2 v2.0.1 // indirect
